@@ -96,12 +96,31 @@ static void on_signal(int sig) {
   fprintf(tr, "{\"e\":\"crash\",\"sig\":%d,\"in\":", sig); j_str(last_begin); fprintf(tr, "}\n");
   fflush(tr); _exit(0);
 }
+/* VERIF_EV hooks of the library (guard MPIR_VERIF): one "hk" event per distinct (tag, a, b, c, d) per call */
+#ifdef MPIR_VERIF
+extern void (*__mpir_verif_ev) (const char *tag, long a, long b, long c, long d);
+#endif
+#define HKN 128
+static unsigned long hk_seen[HKN]; static int hk_n;
+static void hk_reset(void) { hk_n = 0; }
+static void hook_cb(const char *tag, long a, long b, long c, long d) {
+  FILE *o = (tr_real && tr != tr_real) ? tr_real : tr; unsigned long h = 1469598103934665603UL; const char *p; int i;
+  if (!o || rec_threaded || !alloc_log) return;
+  for (p = tag; *p; p++) h = (h ^ (unsigned char)*p) * 1099511628211UL;
+  h = (h ^ (unsigned long)a) * 1099511628211UL; h = (h ^ (unsigned long)b) * 1099511628211UL; h = (h ^ (unsigned long)c) * 1099511628211UL; h = (h ^ (unsigned long)d) * 1099511628211UL;
+  for (i = 0; i < hk_n; i++) if (hk_seen[i] == h) return;
+  if (hk_n < HKN) hk_seen[hk_n++] = h; else return;
+  fprintf(o, "{\"e\":\"hk\",\"tag\":\"%s\",\"a\":%ld,\"b\":%ld,\"c\":%ld,\"d\":%ld}\n", tag, a, b, c, d); n_events++;
+}
 void rec_init(const char *path) {
   struct sigaction sa;
   tr = path && strcmp(path, "-") ? fopen(path, "w") : stdout;
   if (!tr) { perror(path); exit(3); }
   setvbuf(tr, NULL, _IOFBF, 1 << 20);
   mp_set_memory_functions(ra_alloc, ra_realloc, ra_free);
+#ifdef MPIR_VERIF
+  __mpir_verif_ev = hook_cb;
+#endif
   memset(&sa, 0, sizeof sa); sa.sa_handler = on_signal; sa.sa_flags = SA_NODEFER;
   sigaction(SIGFPE, &sa, NULL); sigaction(SIGSEGV, &sa, NULL); sigaction(SIGABRT, &sa, NULL); sigaction(SIGBUS, &sa, NULL); sigaction(SIGILL, &sa, NULL);
 }
@@ -166,6 +185,7 @@ void j_double(double d) {
 }
 
 /* ------------------------------------------------------------------ */
+static void hk_reset(void);
 static __thread int fn_first;
 static __thread int fn_gw_done;
 int rec_threaded;      /* threaded drivers: no global-write snapshots, no allocator table sweeps */
@@ -184,7 +204,7 @@ void fn_in_str(const char *k, const char *s) { fn_key(k); j_str(s); }
 void fn_in_raw(const char *k, const char *json) { fn_key(k); fputs(json, tr); }
 /* inputs done: from here until fn_out_* the real trace receives the allocator events of the call */
 static __thread FILE *fn_mem;
-void fn_mid(void) { fputs("},\"o\":{", tr); fn_first = 1; fn_mem = tr; tr = tr_real; gw_snapshot(); }
+void fn_mid(void) { fputs("},\"o\":{", tr); fn_first = 1; fn_mem = tr; tr = tr_real; gw_snapshot(); hk_reset(); }
 static void fn_resume(void) { if (tr == tr_real && fn_mem) { if (!fn_gw_done) { gw_diff_emit(); fn_gw_done = 1; } tr = fn_mem; } }
 void fn_out_limbs(const char *k, const mp_limb_t *p, mp_size_t n) { fn_resume(); fn_key(k); j_hex_limbs(p, n); }
 void fn_out_int(const char *k, long v) { fn_resume(); fn_key(k); fprintf(tr, "%ld", v); }
@@ -304,7 +324,7 @@ int do_call(const api_fn *f, arg_t *a, ret_t *r) {
   fprintf(tr, "{\"e\":\"begin\",\"f\":\"%s\",", f->name); emit_args(f, a); fputs("}\n", tr); n_events++;
   snprintf(last_begin, sizeof last_begin, "%s", f->name);
   memset(r, 0, sizeof *r); r->kind = f->rkind;
-  gw_snapshot();
+  gw_snapshot(); hk_reset();
   rec_jmp_armed = 1;
   sig = sigsetjmp(rec_jmp, 1);
   if (sig == 0) { f->glue(a, r); rec_jmp_armed = 0; }
